@@ -497,10 +497,10 @@ Definition replay_apply (s : kstate) (hd : hdr) (cp : cproof) (temp : pmap) : re
       let v := k_vot s1 in
       let pc' := fold_left (fun m e => pm_set m (fst e) (snd e)) temp (v_pc v) in
       let v1 := with_pc v pc' in
-      let v2 := with_sum v1 (sum_set_precommits (v_sum v1) (vs_pows (v_vals v1)) pc') in
+      let v2 := bump (with_sum v1 (sum_set_precommits (v_sum v1) (vs_pows (v_vals v1)) pc')) in
       let coll := map_to_sparse (vs_pkh (v_vals v2)) pc' in
-      let s2 := log_w (set_rounds (set_vot s1 v2) (rs_overwrite_pc (st_rounds s1) (hd_height hd) (cp_round cp) coll))
-                      (WPC (hd_height hd) (cp_round cp) coll) in
+      let s2 := ev_w (log_w (set_rounds (set_vot s1 v2) (rs_overwrite_pc (st_rounds s1) (hd_height hd) (cp_round cp) coll))
+                            (WPC (hd_height hd) (cp_round cp) coll)) (EvMark ViewIDVoting v2) in
       bind (check_voting_precommit_shift s2) (fun s3 => Ok (s3, 0))).
 
 Definition site_replay_earlier : string := "handleReplayedHeader: TODO: handle replay for earlier round".
